@@ -154,7 +154,7 @@ def leanchecker(mods):
 
 def spec_matches(impl, spec):
     """token-wise comparison; spec token `x` = unspecified; whole spec `n/a` = not applicable"""
-    if spec == "n/a": return None
+    if spec in ("n/a", "x"): return None
     it, st = impl.split(" "), spec.split(" ")
     if "x" not in st:
         return impl == spec
